@@ -78,7 +78,8 @@ def obligations(db, mods, src_root):
                         recs.append(_Ob(f"C18::reachable[{variant},unpack={unpack}]", "reachable", False, f"engine: {e}"))
                         continue
                     normal = [(s, v) for s, v in outs if not isinstance(v, Exc)]
-                    excs = [(s, v) for s, v in outs if isinstance(v, Exc) and v.cls not in ("OSError", "URLError", "TimeoutError", "Exception")]
+                    allowed = set(db.get(BASE + "load_csv_dataset_from_remote").raises_only)      # failures of the load itself
+                    excs = [(s, v) for s, v in outs if isinstance(v, Exc) and v.cls not in allowed]
                     ok = len(normal) >= 1 and not excs
                     detail = "" if ok else "; ".join(f"{v.cls}: {v.msg}" for s, v in excs) or "no normal outcome"
                     recs.append(_Ob(f"C18::reachable[{variant},unpack={unpack}]", "reachable", ok, detail))
